@@ -681,7 +681,7 @@ def copyStructRegLines (ty : ATy) : List String :=
   let fp := if hasFlonum ty 0 8 0 then 1 else 0
   let second :=
     if sz > 8 then
-      if hasFlonum ty 8 16 0 then [if sz = 4 then s!"  movss 8(%rdi), %xmm{fp}" else s!"  movsd 8(%rdi), %xmm{fp}"]
+      if hasFlonum ty 8 16 0 then [if sz = 12 then s!"  movss 8(%rdi), %xmm{fp}" else s!"  movsd 8(%rdi), %xmm{fp}"]
       else
         let reg1 := if gp = 0 then "%al" else "%dl"
         let reg2 := if gp = 0 then "%rax" else "%rdx"
